@@ -187,6 +187,29 @@ def genNaryKeys (N : Nat) (keys : List Nat) (root : Option Nat) : Outcome Nodes 
 server's public key and from nothing else (injectively: `C13.c13_name_preimage_injective`) -/
 def nodeIds (keys : List Nat) (t : Nodes) : List Nat := t.map fun x => keys.getD x.1 0
 
+/-! ### onet's own tree predicates (tree.go:232-278, 936-999), on a tree in creation order -/
+
+/-- `len(node.Children)` of the node at position `p`: how many later nodes name `p` as their parent -/
+def arity (t : Nodes) (p : Nat) : Nat := ((t.drop 1).map (·.2)).count p
+
+/-- `t.IsNary(t.Root, M)` (tree.go:238-250): every node reached from the root has `M` children or none
+(the recursion stops at the first node that has another number; the answer is the conjunction) -/
+def isNary (t : Nodes) (M : Nat) : Bool :=
+  (List.range t.length).all fun p => arity t p == M || arity t p == 0
+
+/-- `t.IsBinary(t.Root)` (tree.go:233-235) -/
+def isBinary (t : Nodes) : Bool := isNary t 2
+
+/-- `t.Size()` (tree.go:253-259): the nodes `Visit` reaches from the root — the root and all its
+descendants (`SubtreeCount` counts the same walk minus one, tree.go:995-999) -/
+def size (t : Nodes) : Nat := subtreeCount t 0 + 1
+
+/-- number of nodes with `IsLeaf()` (tree.go:936-938) -/
+def leaves (t : Nodes) : Nat := ((List.range t.length).filter fun p => arity t p == 0).length
+
+/-- `t.UsesList()` (tree.go:263-278): every one of the `n` roster members is on some node -/
+def usesList (t : Nodes) (n : Nat) : Bool := (List.range n).all fun m => t.any (·.1 == m)
+
 /-! ### users of the generators: simulations (simulation.go:248-361) -/
 
 /-- `SimulationBFTree.CreateRoster(sc, addresses, port)`: server `c` of `Hosts` gets the address
@@ -238,6 +261,12 @@ def showOutcome : Outcome Nodes → String
   | .noTree => "none"
   | .panic => "panic"
   | .hang => "hang"
+
+def b01 (b : Bool) : String := if b then "1" else "0"
+
+/-- the observation of `npred` / `bpred` -/
+def showPreds (t : Nodes) (n m : Nat) : String :=
+  s!"size={size t} leaves={leaves t} nary={b01 (isNary t m)} binary={b01 (isBinary t)} useslist={b01 (usesList t n)} rootkids={arity t 0}"
 
 /-- `nary <n> <N> <root index | x>` (`x`: a root that is not in the roster), `binary <n>`,
 `star <n>`, `big <N> <nodes> <host of every member>` -/
@@ -353,6 +382,28 @@ def step (s : State) (toks : List String) : State × String :=
     match hosts.toNat?, bf.toNat? with
     | some _, some _ => (s, "err")
     | _, _ => (s, "bad-op")
+  -- `npred <n> <N> <root> <M>` / `bpred <N> <nodes> <hosts> <M>`: onet's own predicates on the tree the
+  -- generator returns: Size, number of IsLeaf nodes, IsNary(M), IsBinary, UsesList, children of the root
+  | ["npred", n, bn, r, m] =>
+    match n.toNat?, bn.toNat?, r.toNat?, m.toNat? with
+    | some n, some bn, some r, some m =>
+      if n = 0 ∨ n > 4096 ∨ r ≥ n then (s, "bad-op") else
+      (s, match genNary bn (some r) n with
+          | .tree t => showPreds t n m
+          | .noTree => "none"
+          | .panic => "panic"
+          | .hang => "hang")
+    | _, _, _, _ => (s, "bad-op")
+  | ["bpred", bn, nodes, hosts, m] =>
+    match bn.toNat?, nodes.toNat?, Util.natList hosts, m.toNat? with
+    | some bn, some nodes, some hosts, some m =>
+      if hosts.isEmpty ∨ bn = 0 ∨ nodes > 4096 then (s, "bad-op") else
+      (s, match genBig { N := bn, nodes := nodes, hosts := hosts } with
+          | .tree lv => showPreds (flatten lv) hosts.length m
+          | .noTree => "none"
+          | .panic => "panic"
+          | .hang => "hang")
+    | _, _, _, _ => (s, "bad-op")
   | _ => (s, "bad-op")
 
 end Drv
